@@ -258,6 +258,10 @@ func (rsc *service) updatePodGPUGroup(
 
 	err = rsc.kubeClient.Patch(ctx, pod, client.MergeFrom(originalPod))
 	if err != nil {
+		// Keep the in-memory pod in line with the API server: the rollback removes exactly the
+		// GPU group labels it finds on this object, and a JSON patch removing a label that was
+		// never stored is rejected as a whole, leaving the labels of earlier GPU groups behind.
+		pod.Labels = originalPod.Labels
 		return fmt.Errorf("failed to patch pod <%s/%s> with GPU group label: %v", pod.Namespace, pod.Name, err)
 	}
 
